@@ -84,7 +84,8 @@ func Equal(a, b *V) bool {
 	case Int:
 		return a.I == b.I
 	case Float:
-		return math.Float64bits(a.F) == math.Float64bits(b.F) || (a.F == b.F)
+		// bit-exact: +0.0 and -0.0 are different values (they encode to different bytes and links)
+		return math.Float64bits(a.F) == math.Float64bits(b.F)
 	case String, Link:
 		return a.S == b.S
 	case Bytes:
